@@ -6,7 +6,7 @@ stores or tests an attribute - as step functions over (attributes, heap), by sym
     allocates is a local object created per call; the default amplitude / resolution-factor plumbing between the allocation and the loops is one
     opaque numerics block)
 
-The structure `PropagatorSelf` has one field per `self.x = ...` found ANYWHERE in the class.  The numerics (kernel construction, `custom`, pad,
+The structure `PropagatorAttrs` has one field per `self.x = ...` found ANYWHERE in the class.  The numerics (kernel construction, `custom`, pad,
 crop, field construction) are uninterpreted fields of `PropOps`: they are regenerated formula by formula in Pipelines.lean / WaveKernels.lean;
 this file is about WHICH attribute and WHICH object every statement reads, writes in place, rebinds or hands out.  See objcore.py."""
 import ast
@@ -104,7 +104,7 @@ PARAM_KINDS = {
 
 METHODS = ['__init__', 'get_laser_powers', 'set_laser_powers', 'get_kernels', '__call__', 'reconstruct']
 
-SPEC = dict(cls='propagator', file=REL, prefix='propagator', struct='PropagatorSelf', opsname='PropOps', ops=OPS, calls=CALLS,
+SPEC = dict(cls='propagator', file=REL, prefix='propagator', struct='PropagatorAttrs', opsname='PropOps', ops=OPS, calls=CALLS,
             param_kinds=PARAM_KINDS, summaries={},
             regions={'reconstruct': [Region('if isinstance(amplitude, type(None))', ['amplitude', 'hologram_phases_scaled'], 'prepareReconstruct',
                                             ['amplitude', 'hologram_phases', 'self.number_of_channels', 'self.resolution', 'self.resolution_factor'],
